@@ -25,6 +25,8 @@ CLAIMED = {
          "Spa application semantics are a harness model (ModelSpa); temperature read-back within one raw unit; benign network only (the statement quantifies over inputs and histories, not faults)."),
  "C20": ("exploration", "3.C20", "World T: the real GeckoUdpSocket engine thread (and GeckoSpa handshake, GeckoSimulator engine) on parked real threads under a seeded baton scheduler in virtual time; four drawn sub-scenarios: FIFO/throttled sends with 1-5 (line-pre-empted) callers and incoming traffic, first-match dispatch with overlapping prefixes / runtime (un)registration / raising handlers, handler life for drawn (T, N, answer instant), and the real handshake under scripted loss of requests, replies and chosen segments.",
          "T never below two engine iterations plus the send-queue delay; registration changes between datagrams; only the choice of who runs is simulated, the threads are real."),
+ "C16": ("exploration", "3.C16", "Seeded search in three parts: linearizability of the threaded counter against a fetch-and-increment model with 2-6 real caller threads pre-empted at line level inside udp_socket.py across both wraps; a single-caller walk over two full cycles of both kinds on both implementations under drawn kind interleavings (every reachable counter state); and a wire monitor over every datagram of the full async client (both cycles wrap on the wire, new connections restart) and of the full blocking facade.",
+         "Fewer than one full cycle is drawn concurrently; on an async connection draw and send share a callback so wire order is draw order."),
 }
 PENDING = {}
 NA = {
